@@ -284,3 +284,34 @@ def unisolvent(V, nodes, q=None):
     B = collocation(V, nodes, None, q)
     r, _ = rank_nullspace(B)
     return r == len(nodes)
+
+
+def l2_projection_matrix(U, V, nodes=None, p=None, q=None):
+    """matrix M (nV x nU) with (projection of sum_j P_j N^U_j on space(V)) = sum_i (M P)_i N^V_i, and the Gram
+    matrices (A, B, C) = (<N^U,N^U>, <N^U,N^V>, <N^V,N^V>) for the exact integral of the squared residual"""
+    U = [F(x) for x in U]
+    V = [F(x) for x in V]
+    p = degree_of(U) if p is None else p
+    q = degree_of(V) if q is None else q
+    nU, nV = len(U) - p - 1, len(V) - q - 1
+    A, B, C = gram(U, U, p, p), gram(U, V, p, q), gram(V, V, q, q)
+    Bt = transpose(B)
+    if not nodes:
+        return solve(C, Bt), (A, B, C)
+    Bz = collocation(V, nodes, None, q)
+    Fz = collocation(U, nodes, None, p)
+    m = len(nodes)
+    K = [C[i] + [Bz[k][i] for k in range(m)] for i in range(nV)]
+    K += [Bz[k] + [F(0)] * m for k in range(m)]
+    R = [list(Bt[i]) for i in range(nV)] + [list(Fz[k]) for k in range(m)]
+    X = solve(K, R)
+    return X[:nV], (A, B, C)
+
+
+def sq_residual(P, D, grams):
+    """integral of (sum P_j N^U_j - sum D_i N^V_i)^2 from the Gram matrices (scalar coefficient lists)"""
+    A, B, C = grams
+    AP = matvec(A, P)
+    BD = matvec(B, D)
+    CD = matvec(C, D)
+    return sum(x * y for x, y in zip(P, AP)) - 2 * sum(x * y for x, y in zip(P, BD)) + sum(x * y for x, y in zip(D, CD))
